@@ -111,6 +111,22 @@ theorem destination_never_larger (c : IoCfg) (aliased : Bool) (inp result : Byte
     rw [(hdiff hs).2]
     simp [hdl, hr]
 
+/-- a run whose destination is not the input's own name always delivers - the result, or a copy of the
+    original: whatever made the run give up improving (nothing to gain, a timeout that expired before
+    any work), `--out`, `--dir` and standard output receive a file -/
+theorem separate_destination_always_delivers (c : IoCfg) (hvalid : c.input ≠ .invalid)
+    (hr : c.route = .out ∨ c.route = .dir ∨ c.route = .stdout) : delivers c = true := by
+  unfold delivers
+  cases hi : c.input with
+  | improvable => rfl
+  | notImprovable =>
+    simp only [Bool.or_eq_true, decide_eq_true_eq]
+    right
+    intro h
+    rw [h] at hr
+    simp at hr
+  | invalid => exact absurd hi hvalid
+
 /-- Non-vacuity: `--out` onto a link to the input, input not improvable: the file is truncated and
     rewritten from memory and ends up as it was. -/
 example :
